@@ -157,7 +157,7 @@ def run_job(job, ctx):
         for j in range(40):
             blocks.append(_random_block(r))
         eol = "\r\n" if job["i"] % 3 == 0 else "\n"
-        for c in vbatch.run_batch(ctx, blocks, "hash", "keep-sorted", model, eol=eol, sig_prefix="C06",
+        for c in vbatch.run_batch(ctx, blocks, "hash", "keep-sorted", model, eol=eol, bom=(job["i"] % 3 == 1), sig_prefix="C06",
                                   nontrivial_fn=_nontrivial, sets_fn=_sets):
             acc.add(c)
     return acc.to_cases(h(job))
